@@ -14,15 +14,19 @@ META = {
     'explanation': 'E-ABS (difference-bound matrices, bounded disjunction on loop bodies, loop-head ghost copies) over '
                    'isSorted, linearSearchByName, linearSearchById, binarySearchByName, getZoneInfoFor*, findIndexFor*: '
                    'proves 0 <= i < registrySize at every ZoneRegistryBroker::zoneInfo(i), that no narrowing conversion '
-                   'wraps, and exhibits a ranking function for each loop; E-PATH rules for found => equal and for the '
+                   'wraps, and exhibits a ranking function for each loop; E-SEQ (typed interpretation through the real bodies of the '
+                   'searches, brokers and flash-read macros; only the string comparators are abstracted, to the sign of a rank '
+                   'difference) of linear/binary search, isSorted and findIndexFor* on every abstract registry of 0..9 entries '
+                   '(thorough: 11) in sorted, reversed, nearly sorted and shuffled order, with every present name, every absent '
+                   'name between / before / after the entries, present and absent ids; E-PATH rules for the sorted gate and for the '
                    'ZoneManagerImpl wrappers.',
     'decided': 'every lookup touches only registry entries, performs no wrapping index arithmetic and terminates, for '
-               'registries of any size; an index is returned only when the name/id at that index compares equal; '
-               'not-found returns the sentinel; the manager maps not-found to the error zone; isSorted() answers true only after '
-               'every adjacent pair was compared in order (ghost index variables in the DBM), and the binary search is reached only '
-               'on paths where mIsSorted holds and discards the half the order excludes',
-    'not_decided': 'that the bisection, run on a sorted registry, ends on the present name (loop invariant "the name, if present, '
-                   'lies in [a, b)"): only its direction, termination and bounds are decided',
+               'registries of any size (E-ABS); on the stated registries every search returns the index of the entry that equals '
+               'the query, else kInvalidIndex, isSorted() answers true exactly for the non-empty ascending ones, and findIndexFor* '
+               'agree with both searches; the binary search is reached only on paths where mIsSorted holds; the manager maps '
+               'not-found to the error zone',
+    'not_decided': 'a proof of the bisection invariant for registries larger than those interpreted (its control flow depends only on '
+                   'comparisons, which is the small-scope argument, not a proof)',
     'assumptions': ['clang 14 parser and template instantiation (both instantiations are analysed)',
                     'strcmp-like comparators return 0 exactly for equal strings',
                     'a registry of registrySize entries is what the constructor was given'],
